@@ -160,9 +160,25 @@ func T7(rc *RC) {
 		return
 	}
 	var bad []string
+	// p = saved permutation, q = requested axes: q undoes p iff p[q[i]] == i for all i (equivalently
+	// q[p[i]] == i). The clearing comparison must be that composition against the loop index.
+	comp := regexp.MustCompile(`\$r\.transposeWith\[\$axes\[(@r\d*|%\w+)\]\] != (@r\d*|%\w+)|(@r\d*|%\w+) != \$r\.transposeWith\[\$axes\[(@r\d*|%\w+)\]\]|\$axes\[\$r\.transposeWith\[(@r\d*|%\w+)\]\] != (@r\d*|%\w+)|(@r\d*|%\w+) != \$axes\[\$r\.transposeWith\[(@r\d*|%\w+)\]\]`)
 	for _, c := range conds {
 		if !strings.Contains(c, ".transposeWith") || !strings.Contains(c, "$axes") {
 			bad = append(bad, "cleared under ["+c+"], which does not compare the saved permutation (transposeWith) with the requested axes")
+			continue
+		}
+		m := comp.FindStringSubmatch(c)
+		ok := false
+		if m != nil {
+			for i := 1; i+1 < len(m); i += 2 {
+				if m[i] != "" && m[i] == m[i+1] {
+					ok = true
+				}
+			}
+		}
+		if !ok {
+			bad = append(bad, "cleared under ["+c+"]: the test is not the composition transposeWith[axes[i]] != i (or axes[transposeWith[i]] != i) - comparing the two permutations element by element recognises a repetition, not an inverse")
 		}
 	}
 	if len(bad) > 0 {
@@ -237,4 +253,91 @@ func T8(rc *RC) {
 		}
 	}
 	rc.S.Count("T8.kernels", n)
+}
+
+// T9: the transpose dispatcher always dispatches. (StdEng).denseTranspose selects the data
+// kernel by element width; a path that returns without calling one of the kernels leaves the
+// data where it was while Dense.Transpose installs the new strides.
+func T9(rc *RC) {
+	rc.S.Declare("T9", "transpose dispatch completeness: every path of (StdEng).denseTranspose calls exactly one data kernel (denseTranspose1/2/4/8/Arbitrary/String)", 1)
+	fi := anchor(rc, "T9", "tensor.(StdEng).denseTranspose")
+	if fi == nil {
+		return
+	}
+	pos := rc.P.Pos(fi.Decl.Pos())
+	_, tree := sCanon(rc, fi)
+	paths, ok := ir.EnumPaths(tree, 2000)
+	if !ok {
+		rc.S.Undec("T9", fi.Key, pos, "too many paths")
+		return
+	}
+	kern := regexp.MustCompile(`\.denseTranspose(1|2|4|8|Arbitrary|String)\(`)
+	var bad []string
+	for _, p := range paths {
+		n := 0
+		for _, st := range p.Steps {
+			n += len(kern.FindAllString(st.Head, -1))
+		}
+		if n != 1 && p.Exit != "panic" {
+			bad = append(bad, fmt.Sprintf("the path [%s] calls %d data kernels", strings.Join(p.Guards, " && "), n))
+		}
+	}
+	if len(bad) > 0 {
+		rc.S.Viol("T9", fi.Key, pos, strings.Join(uniq(bad), "; ")).Sig = fmt.Sprintf("%d path(s) without exactly one kernel", len(uniq(bad)))
+	} else {
+		rc.S.Ok("T9", fi.Key, pos, fmt.Sprintf("%d paths, one kernel each", len(paths)))
+	}
+}
+
+// T10: materialisation ends the lazy state on every successful exit. Once Dense.Transpose has
+// established that a transpose is pending, every exit that does not return an error must have
+// the cleanup (old zeroed, transposeWith cleared - usually deferred) on its path: a vector needs
+// no data movement but is no longer lazily transposed either.
+func T10(rc *RC) {
+	rc.S.Declare("T10", "materialisation ends the lazy state: every non-error exit of Dense.Transpose taken with a pending transpose has cleared old and transposeWith (deferred or explicit) on its path", 1)
+	fi := anchor(rc, "T10", "tensor.(*Dense).Transpose")
+	if fi == nil {
+		return
+	}
+	pos := rc.P.Pos(fi.Decl.Pos())
+	_, tree := sCanon(rc, fi)
+	paths, ok := ir.EnumPaths(tree, 5000)
+	if !ok {
+		rc.S.Undec("T10", fi.Key, pos, "too many paths")
+		return
+	}
+	pending := ir.BNot(ir.BAtom("$r.old.IsZero()"))
+	scalar := ir.BAtom("$r.IsScalar()")
+	var bad []string
+	n := 0
+	for _, p := range paths {
+		f := pathG(p)
+		if !ir.Implies(f, pending) || ir.Implies(f, scalar) {
+			continue
+		}
+		if p.Exit == "panic" || strings.HasPrefix(strings.TrimSpace(p.Ret), "errors.") {
+			continue // refusal: the tensor stays lazily transposed, consistently
+		}
+		n++
+		cleared := false
+		for _, st := range p.Steps {
+			if strings.Contains(st.Head, "$r.old.zero()") || strings.Contains(st.Head, "$r.old.zeroOnly()") || strings.Contains(st.Head, "$r.UT()") {
+				if strings.Contains(st.Head, "$r.transposeWith = nil") || strings.Contains(st.Head, "$r.UT()") {
+					cleared = true
+				}
+			}
+		}
+		if !cleared {
+			bad = append(bad, fmt.Sprintf("exit [%s] returns %q with the transpose still recorded as pending", strings.Join(p.Guards, " && "), p.Ret))
+		}
+	}
+	if n == 0 {
+		rc.S.Undec("T10", fi.Key, pos, "no successful exit with a pending transpose found")
+		return
+	}
+	if len(bad) > 0 {
+		rc.S.Viol("T10", fi.Key, pos, strings.Join(uniq(bad), "; ")).Sig = fmt.Sprintf("%d exit(s) without cleanup", len(uniq(bad)))
+	} else {
+		rc.S.Ok("T10", fi.Key, pos, fmt.Sprintf("%d successful exits, all after the cleanup was registered", n))
+	}
 }
